@@ -41,6 +41,25 @@ H={
  'C19-r9a':"missed at first; caught since the expect corpus has steps with 70 outputs",
  'C19-r9b':"missed at first; caught since the expect corpus has a process that ends cleanly (head -n k) while expectations are open",
  'C20-r9a':"missed at first; caught since the tools corpus has a specification with 521 branches",
+ # round 10
+ 'C03-r10a':"NOT CAUGHT, outside the property's domain: needs a message whose own data looks like a malformed pattern (a key beginning with '?') or a json.Number; C01-C03 quantify over messages and bound values in which no string begins with '?'",
+ 'C03-r10b':"NOT CAUGHT: the change adds a new feature (Modes: [\"exclusive\"] reorders the shared branch list); no generated specification uses that mode",
+ 'C04-r10b':"missed at first; caught since every sixth generated specification goes through a failed forced recompilation after the successful one (strengthened after reading the description, before the first test with the new code; the earlier code missed it)",
+ 'C06-r10a':"missed at first (diagnostic texts were one token for the repeat comparison too); caught since two identical calls must give identical diagnostic texts",
+ 'C06-r10b':"missed at first (a field added to Walked is invisible to probes that name fields); caught since results are scanned by reflection for the caller's *State and bindings map",
+ 'C07-r10b':"missed at first; caught since the host empties its interpreter registry after compiling",
+ 'C09-r10b':"NOT CAUGHT: Stdio.Stop writes the state file before waiting for the output goroutine; needs a Result in flight at Stop (a writer that holds a line while Stop is called)",
+ 'C10-r10a':"missed at first; caught since jsiso hands over a source that does not compile after a good one, three times (nothing of an earlier program runs in its place)",
+ 'C10-r10b':"missed at first; caught since jsiso runs overlapping executions whose returned object has a getter that reads the environment object during export",
+ 'C11-r10a':"missed at first; caught since jstimeout has the shapes throw-tostring-loop / getter-throw-tostring-loop - adding them exposed the genuine defect D58 in the unchanged code (repaired, e791252); the change was re-made on top of the repair",
+ 'C12-r10a':"missed at first (no generated specification named its own error node); caught since some do (Spec.ErrorNode = 'oops')",
+ 'C13-r10a':"missed at first; caught since the compile component has a loader whose first compilation fails at a broken pattern text, which is then corrected in the same value",
+ 'C13-r10b':"NOT CAUGHT: mcrew GetSpec caches the compiled specification per file (mtime, size); needs a specification using %inline(...) and an edit of the inlined file while the service runs",
+ 'C14-r10a':"missed at first (mcrewroute crews had no store); caught since every fifth crew has a store that is down while the message and its offspring are processed",
+ 'C15-r10a':"missed at first; caught since the probe at the end of every sio history has one uncompilable specification among seven good updates and demands that the crew reports exactly what it did",
+ 'C15-r10b':"missed at first; caught since the sio timer scenarios (C17's) also run for C15",
+ 'C18-r10b':"NOT CAUGHT: FuncAction.Exec gathers the permanent bindings from the caller's map after the action returned; shows only when the owner of the state changes its map while the call is in flight",
+ 'C08-r10a':"caught at once; re-made on top of the repair D58 afterwards and caught again",
 }
 for d in sys.argv[1:]:
     n=os.path.basename(d.rstrip('/'))
